@@ -777,7 +777,8 @@ def rule_for(toks, au, mode):
                 for x in pre[1:]:
                     if x.ws == "":
                         pass
-                first = toks_of(" let") + [_w(x, " " if idx == 0 else x.ws) for idx, x in enumerate(pat)] + toks_of(f" = {v}[{ix}]; {ix} += 1;")
+                amp = "&" if (it and is_p(it[0], "&")) else ""
+                first = toks_of(" let") + [_w(x, " " if idx == 0 else x.ws) for idx, x in enumerate(pat)] + toks_of(f" = {amp}{v}[{ix}]; {ix} += 1;")
                 new = _space(pre) + [_w(body[0], " ")] + _space(first) + body[1:]
                 toks[i:close + 1] = new
                 i += len(pre)
@@ -857,7 +858,7 @@ def rule_H(toks, au, h, lockflags=False, fname=None):
                     path.append(toks[k].text)
                     k += 1
                 # path like ['self','.','F','.','lock'] then '(' ')'
-                if len(path) >= 5 and path[-1] in LOCK_METHODS and path[-2] == "." and texts(toks, k, 2) == ["(", ")"]:
+                if len(path) >= 3 and path[-1] in LOCK_METHODS and path[-2] == "." and texts(toks, k, 2) == ["(", ")"]:
                     recv = "".join(path[:-2])
                     how = path[-1]
                     F = None
